@@ -3,7 +3,7 @@
 # (each run patches /repo and undoes it); appends to seeded/RESULTS.txt (replacing the lines of the changes it re-ran)
 cd "$(dirname "$0")/.." || exit 2
 pat=${1:-C*-m*}; out=seeded/RESULTS.txt.new; : > $out
-for d in seeded/$pat; do [ -d "$d" ] || continue; python3 tools/run_seeded.py $d | head -1 >> $out; done
+for d in seeded/$pat; do [ -d "$d" ] || continue; python3 tools/run_seeded.py $d $SEEDED_ARGS 2>&1 | grep -E "^(CAUGHT|MISSED|MACHINERY)" | head -1 >> $out; done
 touch seeded/RESULTS.txt
 python3 - <<'PY'
 import re
